@@ -11,7 +11,7 @@ from __future__ import annotations
 import ast
 
 from .core import AnchorError, Unsupported
-from .e1_srcmodel import dotted, walk_no_nested, parent
+from .e1_srcmodel import dotted, walk_no_nested, parent, ancestors
 from . import c13_sem as M
 from .c13_sem import Lin, S, lin, show
 
@@ -24,6 +24,31 @@ YTOOLS = "pyyeti/ytools.py"
 def helpers_of(m):
     """private module-level functions: followed (evaluated on the argument values) when a writer calls them"""
     return {q: f for q, f in m.funcs.items() if "." not in q and "#" not in q and q.startswith("_") and not q.startswith("__")}
+
+
+def publics(m, prefix=""):
+    """the public module-level functions (the entry points the property names are among them): rules bind to these, never to a private helper"""
+    return {q: f for q, f in sorted(m.funcs.items()) if "." not in q and "#" not in q and not q.startswith("_") and q.startswith(prefix)}
+
+
+def reach(m, fn):
+    """the functions whose code belongs to `fn`: its nested functions and the private module-level helpers it refers to (called, passed as a
+    value, wrapped in functools.partial), transitively.  Extracting or inlining a helper does not change the union of these bodies."""
+    hs = helpers_of(m)
+    out, stack, seen = [], [fn], {id(fn)}
+    while stack:
+        f = stack.pop()
+        for n in ast.walk(f):
+            g = None
+            if isinstance(n, (ast.FunctionDef, ast.AsyncFunctionDef)) and n is not f:
+                g = n
+            elif isinstance(n, ast.Name) and isinstance(n.ctx, ast.Load) and n.id in hs:
+                g = hs[n.id]
+            if g is not None and id(g) not in seen:
+                seen.add(id(g))
+                out.append(g)
+                stack.append(g)
+    return out
 
 
 def engine(ctx, rel, qual, **kw):
@@ -278,31 +303,24 @@ def _effective_default(E, fn, pname):
     return E.ev(dv, M.State()), dv
 
 
-def _reached_helpers(m, fn, done):
-    """private non-writer helpers of the module a writer calls (transitively): their formats belong to the writer"""
-    out = []
-    hs = helpers_of(m)
-    stack = [fn]
-    while stack:
-        f = stack.pop()
-        for n in ast.walk(f):
-            if isinstance(n, ast.Call) and isinstance(n.func, ast.Name) and n.func.id in hs and not n.func.id.startswith("_wt"):
-                h = hs[n.func.id]
-                if id(h) not in done:
-                    done.add(id(h))
-                    out.append(h)
-                    stack.append(h)
-    return out
+def _part(val):
+    """which part of a written number a formatted value is: '' (the value), '.real', '.imag' - whatever the value is called or computed from"""
+    parts = []
+    while isinstance(val, tuple) and val[:1] == ("attr",) and val[2] in ("real", "imag"):
+        parts.append(val[2])
+        val = val[1]
+    return "".join("." + x for x in reversed(parts))
 
 
 def _width_obligations(ctx, once):
+    """every floating-point format spec a public writer (or a helper that works for it) puts into a card must hold every finite double in its
+    field.  One obligation per (writer, spec, part of the number): where the spec is spelled - f-string, template, `%`, format(), module
+    constant, a helper of its own - does not matter."""
     m = ctx.src.mod(BULK)
     n = 0
     modconsts = {st.targets[0].id for st in m.tree.body if isinstance(st, ast.Assign) and len(st.targets) == 1 and isinstance(st.targets[0], ast.Name)}
-    for q, fn in sorted(m.funcs.items()):
-        if not (q.startswith("wt") or q.startswith("_wt")):
-            continue
-        bodies = [fn] + (_reached_helpers(m, fn, set()) if "." not in q else [])
+    hs = helpers_of(m)
+    for q, fn in publics(m, "wt").items():
         E0 = M.Engine(m, fn)
         # default `form`
         for pname in [x.arg for x in fn.args.posonlyargs + fn.args.args + fn.args.kwonlyargs]:
@@ -330,13 +348,43 @@ def _width_obligations(ctx, once):
                     once.check(ok, f"{q}: default form `{txt}` fits its {W}-character field for every finite value", fn,
                                None if ok else f"a negative value with a three-digit exponent renders {mw} characters (e.g. -1e-100)",
                                key=f"C13-R1|{q}|default form {txt}")
-        for body in bodies:
-            E = E0 if body is fn else M.Engine(m, body)
+        # the bodies that write for q: q itself, its nested functions, the helpers it refers to; a helper is also evaluated on the values each call
+        # site passes (a spec handed down as an argument)
+        work = [(fn, None)] + [(g, None) for g in reach(m, fn)]
+        done = set()
+        while work:
+            body, params = work.pop(0)
+            key_ = (id(body), repr(sorted((params or {}).items(), key=lambda kv: kv[0])))
+            if key_ in done or len(done) > 200:
+                continue
+            done.add(key_)
+            E = E0 if (body is fn and params is None) else M.Engine(m, body, params=params)
             locs = E.locals
             for nm in walk_no_nested(body):
                 if isinstance(nm, ast.Name) and isinstance(nm.ctx, ast.Load) and nm.id in modconsts and nm.id not in locs:
                     nm._c13_modconst = isinstance(E.module_const(nm.id), S)
             st = _lazy_state(E, body)
+            if params is None:
+                for c in walk_no_nested(body):
+                    if isinstance(c, ast.Call) and isinstance(c.func, ast.Name) and c.func.id in hs and c.func.id not in locs:
+                        h = hs[c.func.id]
+                        hp = [a.arg for a in h.args.posonlyargs + h.args.args]
+                        bound = {}
+                        try:
+                            for pn, a in zip(hp, c.args):
+                                if not isinstance(a, ast.Starred):
+                                    v = E.ev(a, st)
+                                    if isinstance(v, S) and v.text() is not None:
+                                        bound[pn] = v
+                            for k in c.keywords:
+                                if k.arg:
+                                    v = E.ev(k.value, st)
+                                    if isinstance(v, S) and v.text() is not None:
+                                        bound[k.arg] = v
+                        except Unsupported:
+                            bound = {}
+                        if bound:
+                            work.append((h, bound))
             for root in _string_roots(body):
                 try:
                     v = E.ev(root, st)
@@ -349,8 +397,7 @@ def _width_obligations(ctx, once):
                     W = sp.width or 0
                     mw = M.float_max_width(sp)
                     ok = mw is not None and mw <= W
-                    role = _value_role(val) or role
-                    what = sp.canon() + (f" of {role}" if role and role.startswith("term") else "")
+                    what = sp.canon() + " of term" + _part(val)
                     shown = ("{" + (show(val) if val is not None else "") + ":" + sp.text + "}")
                     once.check(ok, f"{q}: spec `{shown}` fits its {W}-character field for every finite value", node,
                                None if ok else (f"a negative value with a three-digit exponent renders {mw} characters" if mw else "fixed notation is unbounded"),
@@ -495,6 +542,8 @@ def _pair_source(args, head, N):
         if not (isinstance(a, tuple) and a[:1] == ("elem",)):
             return None
         base, idx = a[1], a[2]
+        if isinstance(idx, tuple) and idx[:1] == ("sym",):
+            idx = lin(idx)
         if isinstance(base, tuple) and base[:1] == ("slice",) and base[4] == Lin(c=1) and isinstance(it, tuple) and it[:2] == ("op", "zip"):
             # zip(t[u:], d[u:]) -> element k of the slice
             end = N if base[3] == ("k", None) else lin(base[3])
@@ -833,12 +882,24 @@ def r2_nonempty_vector(ctx):
     fn = ctx.src.func(WRITER, "vecwrite")
     E = engine(ctx, WRITER, "vecwrite")
     why = []
-    # the row count: the value handed to _vecwrite after the format string (third argument), whatever the local is called
+    # the row count: what bounds the loop in which the rows are written (`for i in range(count)[so]: write(...)`), wherever that loop lives
+    # (vecwrite itself or a helper it calls) and whatever the local is called
     cname = None
-    for e in E.events(("call", "enter")):
-        callee = (e.d["name"] or "").split(".")[-1] if e.kind == "call" else e.d["func"]
-        if callee == "_vecwrite" and len(e.d["args"]) >= 3 and isinstance(e.d["args"][2], tuple) and e.d["args"][2][:1] == ("sym",):
-            cname = e.d["args"][2][1].split("@")[0]
+    fors = {e.d["loop"]: e for e in E.events("for")}
+    counts = []
+    for e in E.events("call"):
+        if is_write(e) and e.loops:
+            for lid in e.loops:
+                h = fors.get(lid)
+                if h is not None:
+                    for hi in _range_ends(h.d["iter"]):
+                        at = the_atom(hi)
+                        if isinstance(at, tuple) and at[:1] == ("sym",) and at not in counts:
+                            counts.append(at)
+    if len(counts) == 1:
+        cname = counts[0][1].split("@")[0]
+    else:
+        why.append("the loop that writes the rows is not bounded by one count: " + ", ".join(show(c) for c in counts))
     asg = [e for e in E.events("assign") if e.d["name"] == cname]
     init = [e for e in asg if not e.loops]
     ups = [e for e in asg if e.loops]
@@ -893,17 +954,49 @@ def r2_nonempty_vector(ctx):
         return
     ctx.ok("vecwrite summary: `length` starts at 1 and is raised only by a vector longer than 1, and vector arguments are indexed "
            "with a[i] => a zero-length vector argument raises IndexError", fn)
-    # call sites whose vector arguments are slices of symbolic extent
+    # call sites whose vector arguments are slices of symbolic extent.  A site is first looked at in the function that contains the call; when
+    # what it passes cannot be understood there (a starred list a caller determines, a stride that is a parameter) the functions that use that
+    # function are evaluated instead, with the calls followed - up to the public entry points.
     m = ctx.src.mod(BULK)
-    nsites = 0
-    for q, f2 in sorted(m.funcs.items()):
-        if not any(isinstance(c, ast.Call) and (dotted(c.func) or "").split(".")[-1] == "vecwrite" for c in walk_no_nested(f2)):
-            continue
+    is_vw = lambda c: isinstance(c, ast.Call) and (dotted(c.func) or "").split(".")[-1] == "vecwrite"
+    holders = [q for q, f2 in sorted(m.funcs.items()) if "#" not in q and any(is_vw(c) for c in walk_no_nested(f2))]
+    pubs = publics(m)
+    owners = {}
+
+    def owner(q):
+        """the public entry point a function works for (for messages and keys)"""
+        if q not in owners:
+            top = q.split(".")[0]
+            if top in pubs:
+                owners[q] = top
+            else:
+                f2 = m.funcs[top]
+                owners[q] = next((pq for pq, pf in pubs.items() if any(g is f2 for g in reach(m, pf))), q)
+        return owners[q]
+
+    def users(q):
+        """the functions that refer to q (its enclosing function for a nested one)"""
+        if "." in q:
+            return [q.rsplit(".", 1)[0]]
+        return [q2 for q2, f2 in sorted(m.funcs.items()) if "#" not in q2 and q2 != q and not q2.startswith(q + ".")
+                and any(isinstance(n, ast.Name) and isinstance(n.ctx, ast.Load) and n.id == q for n in walk_no_nested(f2))]
+
+    cache = {}
+
+    def sites(q):
+        """{id(call node): [(label, verdict True / False / None = not understood, instance, detail, node, key)]}; a node is absent when the call passes no slice of
+        symbolic extent"""
+        if q in cache:
+            return cache[q]
+        out = cache[q] = {}
+        f2 = m.funcs[q]
         try:
-            E0 = engine(ctx, BULK, q)
+            E0 = M.Engine(m, f2, follow=helpers_of(m), max_states=256)
+            E0.run()
         except Unsupported as ex:
-            ctx.error(f"{q}: vecwrite call sites", f2, str(ex))
-            continue
+            out[None] = str(ex)
+            return out
+        ctx.src.funcs_consulted.add(f"{BULK}:{q}")
         # case split on the rendered width of a user format, when the function validates it against a few values
         runs = [("", E0)]
         atoms = []
@@ -921,18 +1014,22 @@ def r2_nonempty_vector(ctx):
             if vals and len(vals) <= 4:
                 names = {(2, 32): " [large field]", (2, 16): " [small field]"}
                 runs = [(names.get((atoms[0][2], v_), f" [form width {v_}]"), engine(ctx, BULK, q, pins={atoms[0]: v_})) for v_ in sorted(vals, reverse=True)]
+        oq = owner(q)
         for label, E2 in runs:
             by_node = {}
             for e in E2.events("call"):
                 if is_vecwrite(e):
                     by_node.setdefault(id(e.node), []).append(e)
-            for evs in by_node.values():
+            for nid, evs in by_node.items():
+                data = [a for e in evs for a in vecwrite_parts(e)[2]]
+                if any(isinstance(a, tuple) and a[:1] == ("star",) for a in data):
+                    out.setdefault(nid, []).append((label, None, f"{oq}{label}: vectorised write of a starred list", "the list is not known here: " + show(data[0]), evs[0].node, None))
+                    continue
                 sl = [a for a in vecwrite_parts(evs[0])[2] if isinstance(a, tuple) and a and a[0] == "slice"]
                 if not sl:
                     continue
-                if all(isinstance(a[3], Lin) and M.is_int_const(a[3]) for a in sl):
+                if all(isinstance(a[3], Lin) and M.is_int_const(a[3]) for e in evs for a in vecwrite_parts(e)[2] if isinstance(a, tuple) and a[:1] == ("slice",)):
                     continue
-                nsites += 1
                 verdict, detail = True, None
                 for e in evs:
                     # domain of the property: tables and lists of at least one entry
@@ -959,16 +1056,60 @@ def r2_nonempty_vector(ctx):
                         break
                     if verdict is not True:
                         break
-                inst = (f"{q}{label}: the vectorised write of `{show(sl[0])}` ... is executed only when there is at least one full line")
+                inst = (f"{oq}{label}: the vectorised write of `{show(sl[0])}` ... is executed only when there is at least one full line")
+                out.setdefault(nid, []).append((label, verdict, inst, detail, evs[0].node, f"C13-R2|{oq}|{label.strip(' []')}|unguarded vecwrite"))
+        return out
+
+    nsites = 0
+    for q in holders:
+        own = [id(c) for c in walk_no_nested(m.funcs[q]) if is_vw(c)]
+        res, last = {}, {}      # call node -> rows: settled (every row has a verdict) / seen last (possibly not understood)
+        level, seen = [q], {q}
+        for depth in range(4):
+            for q2 in level:
+                r = sites(q2)
+                if None in r and depth == 0:
+                    ctx.error(f"{owner(q2)}: vecwrite call sites", m.funcs[q2], r[None])
+                for nid in own:
+                    if nid in r:
+                        last[nid] = r[nid]
+                        if nid not in res and all(x[1] is not None for x in r[nid]):
+                            res[nid] = r[nid]
+            if not [nid for nid in own if nid in last and nid not in res]:
+                break
+            nxt = []
+            for q2 in level:
+                for u in users(q2):
+                    if u not in seen:
+                        seen.add(u)
+                        nxt.append(u)
+            level = nxt
+            if not level:
+                break
+        for nid in own:
+            for label, verdict, inst, detail, node, key in res.get(nid) or last.get(nid) or []:
+                nsites += 1
                 if verdict is None:
-                    ctx.error(inst, evs[0].node, detail)
+                    ctx.error(inst, node, detail)
                 else:
-                    ctx.check(verdict, inst, evs[0].node, detail, key=f"C13-R2|{q}|{label.strip(' []')}|unguarded vecwrite")
+                    ctx.check(verdict, inst, node, detail, key=key)
     ctx.assume("C13-R2: the sequences handed to the writers have at least one entry (the property quantifies over lengths 1..n)")
     if nsites >= 2:
         ctx.ok(f"non-empty vector contract bound to {nsites} call sites", BULK + ":1", nontrivial=False)
     else:
         ctx.error(f"non-empty vector contract bound to {nsites} call sites (at least 2 expected)", BULK + ":1")
+
+
+def _range_ends(v):
+    """the end values of the ranges a loop iterates (range(n), range(n)[so], ...)"""
+    out = []
+    if isinstance(v, tuple):
+        if v[:1] == ("range",):
+            out.append(v[2])
+        for x in v[1:]:
+            if isinstance(x, tuple):
+                out.extend(_range_ends(x))
+    return out
 
 
 # ====================================================================================================================== R3
@@ -1187,12 +1328,50 @@ def r3_reader_strides(ctx):
     _dmig(ctx)
 
 
+def _card_consumer(ctx, pub, reader="rdcards"):
+    """qualified name of the function that works on the cards the public reader `pub` gets from `reader(...)`: the function the result of that
+    call is handed to (directly, through a local, or through a wrapper without loops), or `pub` itself when it works on them in its own body"""
+    m = ctx.src.mod(BULK)
+    fn = ctx.src.func(BULK, pub)
+    nested = {q.split(".")[-1]: q for q in m.funcs if q.startswith(pub + ".") and q.count(".") == 1}
+    loops = lambda f: any(isinstance(n, (ast.For, ast.While, ast.comprehension)) for n in ast.walk(f))
+    follow = dict(helpers_of(m))
+    E = M.Engine(m, fn, follow=follow, follow_if=lambda f: not loops(f), max_states=256)
+    E.run()
+
+    def from_reader(v, depth=0):
+        if depth > 6 or not isinstance(v, tuple):
+            return False
+        if v[:1] == ("op",) and isinstance(v[1], str) and v[1].split(".")[-1] == reader:
+            return True
+        return False
+    found = []
+    for e in E.events("call"):
+        nm = (e.d["name"] or "")
+        q = nested.get(nm) or (nm if nm in helpers_of(m) else None)
+        if q is None:
+            continue
+        if any(from_reader(a) for a in list(e.d["args"]) + list(e.d["kws"].values())) and q not in found:
+            found.append(q)
+    if found:
+        return found
+    # the cards are worked on where they are read
+    if any(isinstance(e.d.get("value"), tuple) and from_reader(e.d["value"]) for e in E.events("assign")) or \
+            any(from_reader(e.d["value"]) for e in E.events("call") if isinstance(e.d.get("value"), tuple)):
+        return [pub]
+    return []
+
+
 def _dmig(ctx):
     wd = ctx.src.func(BULK, "wtdmig")
     E = engine(ctx, BULK, "wtdmig")
-    # reader: every store of an entry under form == 6 has a mirrored store of the same value
-    rd = ctx.src.func(BULK, "rddmig._cards_to_df")
-    Er = engine(ctx, BULK, "rddmig._cards_to_df")
+    # reader: every store of an entry under form == 6 has a mirrored store of the same value.  The code looked at is the function rddmig hands the
+    # cards read by rdcards to (found by following that value), not a function of a given name.
+    units = _card_consumer(ctx, "rddmig")
+    if len(units) != 1:
+        raise AnchorError(f"rddmig: the function that turns the cards read by rdcards into matrices ({', '.join(units) or 'none found'})")
+    rd = ctx.src.func(BULK, units[0])
+    Er = engine(ctx, BULK, units[0])
     stores = [e for e in Er.events("store") if isinstance(e.d["index"], tuple) and e.d["index"][:1] == ("tuple",) and len(e.d["index"][1]) == 2 and len(e.loops) >= 2]
 
     def form6(facts):
@@ -1505,8 +1684,16 @@ def r4_sequence_coverage(ctx):
     """writers that cut a sequence into lines / THRU items: every element is written exactly once, in order, and every template has as
     many fields as it is given values"""
     _nasints(ctx)
-    _thru(ctx, "wtset", "ids")
-    _thru(ctx, "_wt_with_thru", "seq")
+    # THRU compression: the public writers named by the property, and every other public writer in whose code (own body, nested functions,
+    # helpers) a loop emits "THRU" between elements of a sequence it is given
+    m = ctx.src.mod(BULK)
+    named = ("wtset", "wtspoints")
+    for q, fn in publics(m, "wt").items():
+        if q in named:
+            _thru(ctx, q, required=True)
+        elif any(isinstance(n, ast.Constant) and isinstance(n.value, str) and "THRU" in n.value.upper() and not isinstance(parent(n), ast.Expr)
+                 and any(isinstance(a, (ast.While, ast.For)) for a in ancestors(n)) for g in [fn] + reach(m, fn) for n in ast.walk(g)):
+            _thru(ctx, q, required=False)
 
 
 def _int_records(E, e, seq, N):
@@ -1769,14 +1956,29 @@ def _tiling(ctx, E, q, seq, fn):
     v.report(ctx, f"{q}: the slices written follow each other without gap or overlap, starting at element 0", fn)
 
 
-def _thru(ctx, q, seqname):
-    """THRU compression loop: each pass emits the run [start, end] (or the single element start) and advances `start` past what it emitted"""
+def _thru(ctx, q, required=True):
+    """THRU compression loop: each pass emits the run [start, end] (or the single element start) and advances `start` past what it emitted.
+    The sequence is whichever parameter of the public writer the emitted elements are taken from."""
     fn = ctx.src.func(BULK, q)
     E = engine(ctx, BULK, q)
-    seq = ("sym", seqname)
     whiles = [e for e in E.events("while")]
-    if not whiles:
-        raise AnchorError(f"{q}: item loop")
+    params = [a.arg for a in fn.args.posonlyargs + fn.args.args + fn.args.kwonlyargs]
+    cands = []
+    for p_ in params:
+        sq = ("sym", p_)
+        hit = False
+        for e in E.events("call"):
+            if e.loops and e.d["attr"] in ("append", "extend", "write") and any(_has_thru(a) and _seq_elems(a, sq) for a in e.d["args"]):
+                hit = True
+                break
+        if hit:
+            cands.append(p_)
+    if not whiles or len(cands) != 1:
+        if required:
+            raise AnchorError(f"{q}: loop that writes the items (single ids and `first THRU last` runs) of one of its arguments")
+        return
+    seqname = cands[0]
+    seq = ("sym", seqname)
     v = V().at(whiles[0].node)
     runs = singles = 0
     for s_end in E.events("loopend"):
